@@ -177,7 +177,9 @@ def run(ctx):
         full = open(out, 'rb').read()
         with SgzReader(out) as r:
             is2d, tcount = r.is_2d, r.tracecount
-            fields = [int(k) for k in r.stored_header_keys][:3]
+            # every one of the 89 fields is probed: a field that is constant in the finished file (KeyError) must not
+            # read as an array from a partial file either
+            fields = list(spec.FIELDS)
             n_real = (1, tcount, r.n_samples) if is2d else (r.n_ilines, r.n_xlines, r.n_samples)
         lay = spec.read_header(out)[0].layout()
         fi = readops.FileInfo(lay)
